@@ -1004,6 +1004,13 @@ func Canon(m *rec.Rec) *rec.Rec {
 			}
 			r.SetB("note", n)
 		}
+		if r.K == "port_mod" { // the wire slot is 6 bytes whatever the length of the value's address
+			a := append([]byte(nil), r.Bytes("hw_addr")...)
+			for len(a) < 6 {
+				a = append(a, 0)
+			}
+			r.SetB("hw_addr", a[:6])
+		}
 		for k := range r.N {
 			if k[0] == '_' {
 				delete(r.N, k)
